@@ -16,6 +16,7 @@
 #include <string>
 #include <vector>
 #include <new>
+#include <climits>
 #include "mach_alloc.hpp"
 
 namespace vh {
@@ -157,6 +158,11 @@ struct Script {
 	Prng prng{1};
 	Knobs knobs;
 	bool  firstActivation = false;	// inside initialEnter: guards must not cancel (documented precondition)
+	// boundary sweep (C12): answers forced for the next resolution; an unset entry falls back to the palette
+	bool  sweeping = false;			// during the sweep callbacks are idle and guards never cancel
+	std::vector<float> forcedUtility;	// per state id, negative = not forced
+	std::vector<int>   forcedRank;		// per state id, INT_MIN = not forced
+	float forcedRng = -1.0f;			// negative = not forced
 	int   instance = 0;		// instance currently executing an API call
 	void* instancePtr = nullptr;
 
@@ -206,6 +212,11 @@ inline float ScriptRng::next() {
 	HarnessScope hs;
 	Script& s = script();
 	float v;
+	if (s.forcedRng >= 0.0f) {
+		v = s.forcedRng;
+		out() << "rng " << hex(floatBits(v)) << "\n";
+		return v;
+	}
 	const unsigned r = s.prng.below(100);
 	if (r < 10)			v = 0.0f;
 	else if (r < 35)	{ uint32_t b = 0x3F7FFFFFu; memcpy(&v, &b, 4); }		// 1 - 2^-24
@@ -373,6 +384,7 @@ inline void cbLine(int sid, int slot, MethodId m, const std::string& obs, const 
 template <typename TControl>
 void fullActions(TControl& c, int sid, std::string& acts, unsigned idlePercent) {
 	Script& s = script();
+	if (s.sweeping) return;
 	if (s.prng.chance(idlePercent)) return;
 	const unsigned n = 1 + s.prng.below(2);
 	for (unsigned k = 0; k < n; ++k) {
@@ -460,9 +472,9 @@ void onGuard(TControl& c, int sid, int slot, MethodId m, bool thisOk) {
 	const std::string pend = transitionList(c.pendingTransitions());
 	const std::string curr = transitionList(c.currentTransitions());
 	std::string acts;
-	if (s.prng.chance(s.knobs.guardReq))
+	if (!s.sweeping && s.prng.chance(s.knobs.guardReq))
 		fullActions(c, sid, acts, 0);
-	if (!s.firstActivation && s.prng.chance(s.knobs.cancel)) {
+	if (!s.firstActivation && !s.sweeping && s.prng.chance(s.knobs.cancel)) {
 		{ ApiScope scope; c.cancelPendingTransitions(); }
 		if (!acts.empty()) acts += ";";
 		acts += "X";
@@ -510,7 +522,9 @@ int8_t onRank(const TControl& c, int sid, int slot) {
 	HarnessScope hs;
 	const std::string obs = observeBasic(c);
 	const unsigned r = script().prng.below(100);
-	const int v = r < 60 ? 0 : r < 80 ? 1 : r < 90 ? -1 : 2;
+	int v = r < 60 ? 0 : r < 80 ? 1 : r < 90 ? -1 : 2;
+	if (sid < static_cast<int>(script().forcedRank.size()) && script().forcedRank[sid] != INT_MIN)
+		v = script().forcedRank[sid];
 	cbLine(sid, slot, M_RANK, obs, "[]", "[]", "RR:" + std::to_string(v), true);
 	return static_cast<int8_t>(v);
 }
@@ -530,6 +544,8 @@ float onUtility(const TControl& c, int sid, int slot) {
 	else if (r < 65)	v = 1000.0f;
 	else if (r < 75)	v = static_cast<float>(1 + s.prng.below(4096)) / 1024.0f;
 	else				v = static_cast<float>(1 + s.prng.below(1u << 24)) / 1048576.0f;	// full mantissa: rounding in sums
+	if (sid < static_cast<int>(s.forcedUtility.size()) && s.forcedUtility[sid] >= 0.0f)
+		v = s.forcedUtility[sid];
 	cbLine(sid, slot, M_UTILITY, obs, "[]", "[]", "RU:" + hex(floatBits(v)), true);
 	return v;
 }
